@@ -69,10 +69,14 @@ func (c *Cache) Commit() (err error) {
 		src      string
 		filemode os.FileMode
 	)
+	// A journal is emptied as soon as it has been replayed completely: its operations are no
+	// longer pending. A later Commit (after more operations, or after a failure in a later phase)
+	// must not replay them against what was created since.
+	//
 	// recursive removes first, then plain removes with children before their directory: a
 	// directory emptied by other pending removes can then be removed too
-	c.changes.removeAllMU.RLock()
-	defer c.changes.removeAllMU.RUnlock()
+	c.changes.removeAllMU.Lock()
+	defer c.changes.removeAllMU.Unlock()
 	for src = range c.changes.removeAll {
 		if c.remoteFS.IsExist(src) {
 			if err = c.remoteFS.RemoveAll(src); err != nil {
@@ -80,8 +84,9 @@ func (c *Cache) Commit() (err error) {
 			}
 		}
 	}
-	c.changes.removeMU.RLock()
-	defer c.changes.removeMU.RUnlock()
+	c.changes.removeAll = map[string]bool{}
+	c.changes.removeMU.Lock()
+	defer c.changes.removeMU.Unlock()
 	for _, src = range c.removesDeepestFirst() {
 		if c.remoteFS.IsExist(src) {
 			if err = c.remoteFS.Remove(src); err != nil {
@@ -89,8 +94,9 @@ func (c *Cache) Commit() (err error) {
 			}
 		}
 	}
-	c.changes.mkdirAllMU.RLock()
-	defer c.changes.mkdirAllMU.RUnlock()
+	c.changes.remove = map[string]bool{}
+	c.changes.mkdirAllMU.Lock()
+	defer c.changes.mkdirAllMU.Unlock()
 	for src, filemode = range c.changes.mkdirAll {
 		if c.bufferFS.IsDir(src) {
 			if err = c.remoteFS.MkdirAll(src, filemode); err != nil {
@@ -98,8 +104,9 @@ func (c *Cache) Commit() (err error) {
 			}
 		}
 	}
-	c.changes.writeMU.RLock()
-	defer c.changes.writeMU.RUnlock()
+	c.changes.mkdirAll = map[string]os.FileMode{}
+	c.changes.writeMU.Lock()
+	defer c.changes.writeMU.Unlock()
 	for src = range c.changes.write {
 		if c.bufferFS.IsFile(src) {
 			if err = c.remoteFS.MkdirAll(path.Dir(src), filesystem.DefaultUnixDirMode); err != nil {
@@ -120,6 +127,7 @@ func (c *Cache) Commit() (err error) {
 			}
 		}
 	}
+	c.changes.write = map[string]bool{}
 	return nil
 }
 
